@@ -19,7 +19,7 @@ from . import progs
 
 THEOREMS = ["rw_identity", "rw_items", "rw_total", "rw_significant", "rw_hints", "rw_tokens", "rw_tokens_pred", "unsafe_example", "parse_unique",
             "shortChars_decode", "shortnames_inj", "shortName_class", "pkg_local_disjoint", "short_not_reserved",
-            "do_is_a_candidate", "names_distinct", "names_fresh"]
+            "do_is_a_candidate", "names_distinct", "names_fresh", "firstFree_total", "newVariable_total"]
 
 KW = ["abstract", "arguments", "await", "async", "boolean", "break", "byte", "case", "catch", "char", "class", "const",
       "continue", "debugger", "default", "delete", "do", "double", "else", "enum", "eval", "export", "extends", "false",
